@@ -39,6 +39,7 @@ def main():
             res["suite"] = {"passed": passed, "failed": failed}
             print("suite: %d passed, %d failed" % (passed, failed))
         env = dict(os.environ)
+        env.setdefault("VERIF_NO_SHRINK", "1")  # batch self-tests do not need minimised replays
         for p in props:
             t0 = time.time()
             c = subprocess.run([os.path.join(V, "check"), p, tier], cwd=V, capture_output=True, text=True, env=env)
